@@ -1091,6 +1091,24 @@ theorem overlap_apply (links : Rule → Bool) (script : Nat → Script) (desired
   rw [hiso, hinv]
   exact apply_path links (script i) rules (desired i) a (objs0 i) (path0 i) hv hd hl
 
+/-- … with the chain the search returned for request `i`: the searches of the requests are serialised
+by the lock of `ChainStorage` (`FindConversionChain` holds `cs.mu`), so request `i` finds the cache as
+some history of earlier queries left it; whatever that history and the map iteration order, and
+whatever the other requests do between `i`'s steps, the application clause holds of `i`'s run. -/
+theorem overlap_apply_chain (ord : Order) (links : Rule → Bool) (script : Nat → Script) (desired : Nat → Ver)
+    (path0 : Nat → Path) (objs0 : Nat → List Obj) (acts : List Act) (i : Nat) (e : PathEnd)
+    (rules history : List Rule) (a : Ver) (hv : extractVersions (objs0 i) = [a])
+    (hU : Coherent (a :: desired i :: versionsOf rules))
+    (hfound : (find ord (afterQueries ord (Chain.ofRules rules) history) ⟨a, desired i⟩).2 = .found (path0 i))
+    (h : ((exec links script desired fresh acts (init path0 objs0)).fl i).fin = some e) :
+    applyCheck rules (desired i) (objs0 i) (script i)
+      ((exec links script desired fresh acts (init path0 objs0)).fl i).inv
+      (replyOf (objs0 i).length
+        (e, ((exec links script desired fresh acts (init path0 objs0)).fl i).objs,
+            ((exec links script desired fresh acts (init path0 objs0)).fl i).inv)) = none :=
+  have hc := chain_sound ord rules history a (desired i) (path0 i) hU hfound
+  overlap_apply links script desired path0 objs0 acts i e rules a hv hc.declared hc.linked h
+
 end Overlap
 
 /-! ## non-vacuity and regression witnesses -/
